@@ -1144,10 +1144,18 @@ class AirTouch4(pyairtouch.api.AirTouch):
             except TimeoutError:
                 _LOGGER.debug("Group status timed out, requesting update")
                 if self._socket.is_connected:
-                    await self._socket.send(
-                        message=group_status_msg.GroupStatusRequest(),
-                        retry_policy=pyairtouch.comms.socket.RETRY_CONNECTED,
-                    )
+                    try:
+                        await self._socket.send(
+                            message=group_status_msg.GroupStatusRequest(),
+                            retry_policy=pyairtouch.comms.socket.RETRY_CONNECTED,
+                        )
+                    except (
+                        pyairtouch.comms.socket.NotOpenError,
+                        pyairtouch.comms.socket.QueueOverflowError,
+                    ) as ex:
+                        # The request could not be queued this time. Try again
+                        # after the next timeout rather than ending the loop.
+                        _LOGGER.debug("Unable to request group status: %r", ex)
 
 
 async def _notify_subscribers(callbacks: Iterable[Awaitable[Any]]) -> None:
